@@ -7,7 +7,7 @@
    forms.  Each statement is one choice of (field expression, second field, condition,
    dimension list, tail); the driver runs every public operation on a fresh parse of it.
    Other statement kinds come from the Grammar corpus (Gen_stmt).                       *)
-EXTENDS Naturals, Sequences, TLC, Tok, Json, CSV, IOUtils
+EXTENDS Naturals, Sequences, TLC, Tok, Dict, Json, CSV, IOUtils
 
 CONSTANTS Part
 VARIABLES done
@@ -51,6 +51,29 @@ Tails == {"", "fill(0)", "fill(none) LIMIT 0", "ORDER BY time DESC SLIMIT 1", "f
 Emit(text, fam) == CSVWrite("%1$s", <<ToJson([family |-> fam, text |-> text])>>, IOEnv.CASE_FILE)
 Sel(f, c, d, tl) == "SELECT " \o f \o " FROM m" \o (IF c = "" THEN "" ELSE " WHERE " \o c) \o (IF d = "" THEN "" ELSE " GROUP BY " \o d) \o (IF tl = "" THEN "" ELSE " " \o tl)
 
+\* Part "dictcalls": every string constant of the tree under check (the source dictionary, Dict.tla) as the NAME of a call
+\* - in field, argument, condition and dimension position, with 0..3 arguments - and as a data type suffix: an operation
+\* that knows a function by name (type filters, selectors, column naming, validation of arguments) spells the name in its
+\* source.  The name is written quoted, so every word is a name; written bare where it may be a type.
+EmitT(toks, fam) == CSVWrite("%1$s", <<ToJson([family |-> fam, toks |-> toks])>>, IOEnv.CASE_FILE)
+SelT(fields, rest) == <<Kw("SELECT")>> \o fields \o <<Kw("FROM"), Id("m")>> \o rest
+CallT(w, args) == <<QId(w), PT("(")>> \o args \o <<PT(")")>>
+GroupT == <<Kw("GROUP"), Kw("BY"), Id("time"), PT("("), DurT("1m"), PT(")")>>
+DictCalls(w) ==
+  /\ EmitT(SelT(CallT(w, <<IdT("v")>>), <<>>), "dict-call")
+  /\ EmitT(SelT(CallT(w, <<>>), <<>>), "dict-call0")
+  /\ EmitT(SelT(CallT(w, <<IdT("v"), PT(","), Int("2")>>), GroupT), "dict-call2")
+  /\ EmitT(SelT(CallT(w, <<PT("*")>>), <<>>), "dict-call-star")
+  /\ EmitT(SelT(CallT(w, <<ReT("v")>>), GroupT \o <<PT(","), P("*")>>), "dict-call-regex")
+  /\ EmitT(SelT(CallT(w, <<IdT("mean"), PT("("), IdT("v"), PT(")"), PT(","), Dur("10s")>>), GroupT \o <<PT(","), Id("h")>>), "dict-call-nested")
+  /\ EmitT(SelT(<<Id("max"), PT("(")>> \o CallT(w, <<IdT("v")>>) \o <<PT(")")>>, GroupT), "dict-call-inner")
+  /\ EmitT(SelT(CallT(w, <<IdT("v"), PT(","), Id("h"), PT(","), Int("2")>>) \o <<PT(","), Id("h")>>, <<>>), "dict-call-selector")
+  /\ EmitT(SelT(CallT(w, <<IdT("v")>>) \o <<PT(","), Id("v")>> , <<Kw("INTO"), Id("t")>>), "dict-call-mixed")
+  /\ EmitT(SelT(<<Id("v")>>, <<Kw("WHERE")>> \o CallT(w, <<IdT("v")>>) \o <<P(">"), Int("1")>>), "dict-call-where")
+  /\ EmitT(SelT(<<Id("mean"), PT("("), IdT("v"), PT(")")>>, <<Kw("GROUP"), Kw("BY")>> \o CallT(w, <<DurT("1s")>>)), "dict-call-dim")
+  /\ EmitT(SelT(<<Id("v"), PT("::"), PT(w)>>, <<>>), "dict-type")
+  /\ EmitT(SelT(<<Id("mean"), PT("("), IdT("v"), PT(")")>>, GroupT \o <<Id("fill"), PT("("), PT(w), PT(")")>>), "dict-fill")
+
 Init == done = FALSE
 Gen == /\ ~done
        /\ IF Part = "calls"
@@ -85,6 +108,8 @@ Gen == /\ ~done
                             "nosuch, nosuch", "db.rp.nosuch, m", "(SELECT * FROM nosuch, m)", "m, (SELECT mean(*) FROM nosuch, m GROUP BY *)"} :
                  \A f \in {"*", "v", "mean(*)", "*::tag, v", "/v/", "top(v, h, 2)", "count(/./)"} : \A d \in {"", "*", "h", "/h/, time(1m)"} :
                    Emit("SELECT " \o f \o " FROM " \o src \o (IF d = "" THEN "" ELSE " GROUP BY " \o d), "sources")
+          ELSE IF Part = "dictcalls"
+          THEN \A w \in DictStrs : DictCalls(w)
           ELSE IF Part = "dims"
           THEN \A d \in Dims : \A f \in {"v", "mean(v)", "top(v, 1), h", "*"} : \A tl \in Tails : Emit(Sel(f, "", d, tl), "dim")
           ELSE IF Part = "conds"
